@@ -161,6 +161,7 @@ func main() {
 	hashOut := flag.String("hashes", "", "write the set of distinct non-trivial history hashes here")
 	merge := flag.String("merge", "", "merge hash files matching this glob and print the union size")
 	dumpSeed := flag.Int64("dump", -1, "print the scenario of this run index and exit")
+	realRuns := flag.Int("realruns", 0, "real-runtime mode (only when built with -tags passthrough): execute this many scenarios on the real runtime and report oracle disagreements")
 	dethash := flag.Int("dethash", 0, "determinism mode: print 'index hash seq' for this many runs and exit")
 	replayTest := flag.Int("replaytest", 0, "determinism mode: record N runs, replay each by name, compare event-log hashes")
 	skip := flag.Int("skip", 0, "determinism mode: run this many other runs first (batch-position independence)")
@@ -203,6 +204,38 @@ func main() {
 			res := Execute(sc, simrt.NewRandomChooser(sc.ChSeed, sc.Policy, false), false)
 			fmt.Printf("%d %016x %d %016x %s\n", idx, res.Hash, res.Seq, res.HistHash, res.Verdict)
 		}
+		return
+	}
+	if *realRuns > 0 {
+		if !simrt.RealRuntime {
+			fmt.Fprintln(os.Stderr, "-realruns needs a binary built with -tags passthrough")
+			os.Exit(2)
+		}
+		type realOut struct {
+			Runs, Disagreements, Hung, Multi int
+			Examples                         []string
+		}
+		var ro realOut
+		for i := 0; i < *realRuns; i++ {
+			idx := uint64(*worker) + uint64(i)*uint64(*workers)
+			sc, _, _ := scenarioFor(idx)
+			res := Execute(sc, simrt.NewRandomChooser(sc.ChSeed, sc.Policy, false), false)
+			ro.Runs++
+			if res.Verdict == simrt.VHung {
+				ro.Hung++
+			}
+			if res.MaxRunning >= 2 {
+				ro.Multi++
+			}
+			for _, v := range res.Viol {
+				ro.Disagreements++
+				if len(ro.Examples) < 5 {
+					ro.Examples = append(ro.Examples, fmt.Sprintf("run %d %s/%s: %s", idx, v.Prop, v.Oracle, v.Msg))
+				}
+			}
+		}
+		b, _ := json.Marshal(ro)
+		fmt.Println(string(b))
 		return
 	}
 	if *replayTest > 0 {
